@@ -48,7 +48,7 @@ Theorem C12_executions_exact :
        parse_teal p = Ok t ->
        construct_function t path = Ok (f', errs) ->
        forall (e : env) (sem : opsem) (cfgs : list rconfig),
-       final_branch_free t -> Accepts e sem f' cfgs <-> Accepts e sem (whole_function t) cfgs /\ follows path cfgs.
+       Accepts e sem f' cfgs <-> Accepts e sem (whole_function t) cfgs /\ follows path cfgs.
 Proof. exact @cutfun_accepts_iff. Qed.
 
 (* in terms of block sequences: an approving execution of the contract that starts with the path and does not re-enter its earlier blocks is an execution of the cut function *)
@@ -66,7 +66,6 @@ Theorem C12_executions_sound_prefix :
        parse_teal p = Ok t ->
        construct_function t path = Ok (f', errs) ->
        forall (e : env) (sem : opsem) (cfgs : list rconfig),
-       final_branch_free t ->
        path_plain t path ->
        Accepts e sem f' cfgs ->
        Datatypes.length path <= Datatypes.length cfgs ->
